@@ -232,7 +232,7 @@ func PanicClass(r interface{}) string {
 	case strings.Contains(l, "nil map"):
 		return "nilmap"
 	case strings.Contains(l, "nil pointer"), strings.Contains(l, "invalid memory address"),
-		strings.Contains(l, "on zero value"), strings.Contains(l, "nil func"):
+		strings.Contains(l, "on zero value"), strings.Contains(l, "using zero value argument"), strings.Contains(l, "nil func"):
 		return "nilderef"
 	case strings.Contains(l, "negative shift"):
 		return "negshift"
